@@ -248,9 +248,9 @@ class Check:
         rt = os.path.join(wd, 'native_rt.o')
         must(['clang-14', '-O1', '-c', os.path.join(TOOLS, 'native_rt.c'), '-o', rt], 'native_rt')
         real = os.path.join(wd, 'real')
-        must(['clang++-14', '-O1', nred, rt, '-o', real, '-rdynamic', '-ldl', '-w', '-Wl,--unresolved-symbols=ignore-all'], 'native real link', timeout=1800)
+        must(['clang++-14', '-O1', nred, rt, '-o', real, '-rdynamic', '-ldl', '-w', '-Wl,--unresolved-symbols=ignore-all', '-Wl,-z,lazy'], 'native real link', timeout=1800)
         xlat = os.path.join(wd, 'xlat')
-        must(['clang-14', '-O1', '-w', '-I' + INC, c] + extra + [os.path.join(TOOLS, 'native_rt.c'), '-o', xlat, '-rdynamic', '-ldl', '-Wl,--unresolved-symbols=ignore-all'], 'native xlat build', timeout=1800)
+        must(['clang-14', '-O1', '-w', '-I' + INC, c] + extra + [os.path.join(TOOLS, 'native_rt.c'), '-o', xlat, '-rdynamic', '-ldl', '-Wl,--unresolved-symbols=ignore-all', '-Wl,-z,lazy'], 'native xlat build', timeout=1800)
         info['build_s'] = round(time.time() - t0, 1)
         self.built[uname] = dict(wd=wd, gb=gb, real=real, xlat=xlat, info=info)
         return info
@@ -263,7 +263,7 @@ class Check:
         entries = [h.fn for h in self.spec.HARNESSES if h.unit == uname]
         red = self.link_bc(unit, 'san', b['wd'], entries + ['main'])
         san = os.path.join(b['wd'], 'real_san')
-        must(['clang++-14', '-O1', '-g', '-fsanitize=address,undefined', red, os.path.join(b['wd'], 'native_rt.o'), '-o', san, '-rdynamic', '-ldl', '-w', '-Wl,--unresolved-symbols=ignore-all'], 'native san link', timeout=1800)
+        must(['clang++-14', '-O1', '-g', '-fsanitize=address,undefined', red, os.path.join(b['wd'], 'native_rt.o'), '-o', san, '-rdynamic', '-ldl', '-w', '-Wl,--unresolved-symbols=ignore-all', '-Wl,-z,lazy'], 'native san link', timeout=1800)
         b['san'] = san
         return san
 
